@@ -531,6 +531,13 @@ func (x *SPE) val(st *pathState, v ssa.Value) *Expr {
 func (x *SPE) load(st *pathState, addr *Expr, t types.Type, pos token.Pos) *Expr {
 	k := addr.String()
 	if v, ok := st.cells[k]; ok {
+		// a whole value whose parts were overwritten since: the stale whole must
+		// not be returned; clients inspect the parts through the address
+		for c := range st.cells {
+			if strings.HasPrefix(c, k+".") {
+				return &Expr{Op: OpInit, Args: []*Expr{addr}, Type: t, Pos: pos}
+			}
+		}
 		return v
 	}
 	// a field of a cell that was stored as a whole
